@@ -47,7 +47,13 @@ CHAINS = [[('d/l', 'sym', '..'), ('l2', 'sym', 'd/l/..'), ('l2/evil', 'file', ''
           [('d', 'dir', ''), ('d/l', 'sym', '..'), ('d/l/../../x', 'file', '')],
           [('l', 'sym', 'f.txt'), ('l3', 'sym', 'l'), ('l3/x', 'file', '')],
           [('sub/l', 'sym', '../f.txt'), ('f.txt', 'file', ''), ('sub/f.txt', 'file', '')],
-          [('d/l', 'sym', '..'), ('l2', 'sym', 'd/l'), ('alias/l2/../evil', 'file', '')]]
+          [('d/l', 'sym', '..'), ('l2', 'sym', 'd/l'), ('alias/l2/../evil', 'file', '')],
+          # the same chain with member names as archivers really write them (tar -cf a.tar . / doubled separators)
+          [('./d/l', 'sym', '..'), ('./l2', 'sym', 'd/l/..'), ('./l2/evil', 'file', '')],
+          [('d//l', 'sym', '..'), ('l2', 'sym', 'd/l/..'), ('l2/evil', 'file', '')],
+          [('d/./l', 'sym', '..'), ('./l2', 'sym', 'd/l/..'), ('l2/./evil', 'file', '')],
+          # a HARD link to a symbolic-link member of the archive is a second symbolic link (link() does not follow)
+          [('d/l', 'sym', '..'), ('h', 'hard', 'd/l'), ('h/evil', 'file', '')]]
 
 
 def inside(root, path):
@@ -123,8 +129,16 @@ class VFS:
                 made.append((loc, 'sym', os.path.join(parent, m.linkname)))
                 self.created.append(loc)
             elif m.islnk():
-                made.append((loc, 'hard', os.path.join(dest, m.linkname)))
-                self.e[loc] = 'file'
+                # link(2) does not follow: a hard link to a symbolic link is a second symbolic link with the same text,
+                # resolved relative to ITS OWN directory
+                src = self.location(os.path.join(dest, m.linkname))
+                ent = self.e.get(src)
+                if isinstance(ent, tuple) and ent[0] == 'sym':
+                    self.e[loc] = ('sym', ent[1])
+                    made.append((loc, 'sym', os.path.join(parent, ent[1])))
+                else:
+                    made.append((loc, 'hard', os.path.join(dest, m.linkname)))
+                    self.e[loc] = 'file'
                 self.created.append(loc)
             elif m.isdir():
                 loc = self.realpath(loc)
@@ -145,7 +159,7 @@ class VFS:
 def plainly_benign(pre, members):
     """no member path or link target leaves the destination lexically, is absolute, or goes through ANY link (its own or
     one that is already there): such an archive must be accepted"""
-    links = {os.path.normpath(os.path.join(DEST, m.name)) for m in members if m.issym()} | set(pre)
+    links = {os.path.normpath(os.path.join(DEST, m.name)) for m in members if m.issym() or m.islnk()} | set(pre)
     def clean(p):
         if not inside(DEST, p):
             return False
@@ -272,9 +286,59 @@ class StageCopyLink(Target):
                 ('something-is-staged', out.kind == 'raise' or len(g['created']) == 1)]
 
 
-KEYS = ['bin', 'data/extra', 'nested/dir', '../outside', 'bin/../../escape', '/abs/path', 'ok/../fine', '..',
+KEYS = ['bin', 'bin/tool', 'data/extra', 'nested/dir', '../outside', 'bin/../../escape', '/abs/path', 'ok/../fine', '..',
         # siblings whose name STARTS with the instance directory's name (character-wise prefix tests accept them)
         '../inst-old/bin', 'bin/../../inst.bak', '/work/inst-shared/bin']
+
+
+def _reraise(c, exc):
+    """future.utils.raise_with_traceback(exc): raises exc"""
+    from pyvc.core import PyRaise
+    if isinstance(exc, BaseException):
+        raise exc
+    raise PyRaise(exc)
+
+
+class ManifestFS:
+    """what the deployment creates: directories, files and symbolic links under (or, through a link, outside) the instance
+    directory.  Paths are resolved through the links created so far, like the operating system does."""
+
+    def __init__(self):
+        self.links = {}           # path of a link -> what it points to
+        self.exists = set()       # every path that exists (created entries and their parents)
+        self.created = []         # resolved location of everything that was created
+
+    def realpath(self, p):
+        p = os.path.normpath(p)
+        for _ in range(8):
+            parts = p.split('/')
+            for i in range(2, len(parts) + 1):
+                pref = '/'.join(parts[:i])
+                if pref in self.links:
+                    p = os.path.normpath(os.path.join(self.links[pref], *parts[i:]))
+                    break
+            else:
+                return p
+        return p
+
+    def _parent_resolved(self, dst):
+        dst = os.path.normpath(dst)
+        return os.path.join(self.realpath(os.path.dirname(dst)), os.path.basename(dst))
+
+    def _add(self, loc):
+        self.created.append(loc)
+        q = loc
+        while q not in ('/', ''):
+            self.exists.add(q)
+            q = os.path.dirname(q)
+
+    def make(self, c, dst, link_to=None, exist_ok=False):
+        loc = self._parent_resolved(dst)
+        if loc in self.exists and not exist_ok:
+            c.raise_(FileExistsError, 17, 'File exists: %s' % dst)
+        if link_to is not None:
+            self.links[loc] = link_to
+        self._add(loc)
 
 
 class DeployManifest(Target):
@@ -282,34 +346,56 @@ class DeployManifest(Target):
     name = 'ExperimentPackage.expandPackageToDirectory[manifest]'
     file = ST
     qualname = 'ExperimentPackage.expandPackageToDirectory'
-    trusted = ["shutil.copytree / os.symlink / os.makedirs / shutil.copyfile create exactly their destination argument"]
-    assumptions = ["manifests of <= 2 entries over the key pool %r, methods copy/link" % (KEYS,)]
+    trusted = ["shutil.copytree / os.symlink / os.makedirs / shutil.copyfile create their destination argument, resolved through "
+               "the links that exist at that moment (ManifestFS); they fail with FileExistsError on an existing destination"]
+    assumptions = ["manifests of <= 2 entries (both orders) over the key pool %r, methods copy/link; sources live outside the "
+                   "instance directory (a link entry therefore points outside: entries nested under it leave the instance)" % (KEYS,)]
 
     def setup(self, c):
         n = 1 + c.choice('entries', 2)
         manifest = {}
         for i in range(n):
             k = KEYS[c.choice('key%d' % i, len(KEYS))]
-            manifest[k] = 'src%d:%s' % (i, c.one_of('method%d' % i, ['copy', 'link']))
-        c.ghost['created'] = []
+            # sources: relative to the package, or an absolute folder BESIDE the instance whose name starts like it
+            src = c.one_of('source%d' % i, ['src%d' % i, '/work/inst-shared/src%d' % i])
+            manifest[k] = '%s:%s' % (src, c.one_of('method%d' % i, ['copy', 'link']))
+        c.ghost['fs'] = ManifestFS()
         this = Obj('package', location='/pkgs/wf/flowir.yaml', manifestData=manifest,
                    configuration=Obj('conf', isExperimentPackageDirectory=False))
         return State(args=[this, '/work/inst'], kwargs={'file_format': None}, manifest=dict(manifest))
 
     def externs(self, c, st):
-        g = c.ghost
-        rec = lambda name, idx: Extern(name, lambda c, *a, **k: g['created'].append(a[idx]))
-        return {'os.path.exists': Extern('os.path.exists', lambda c, p: False), 'os.makedirs': rec('os.makedirs', 0),
-                'shutil.copytree': rec('shutil.copytree', 1), 'os.symlink': rec('os.symlink', 1),
-                'shutil.copyfile': rec('shutil.copyfile', 1), 'pprint.pformat': Extern('pformat', lambda c, v: 'x')}
+        fs = c.ghost['fs']
+        return {'os.path.exists': Extern('os.path.exists', lambda c, p: fs._parent_resolved(p) in fs.exists),
+                'os.path.realpath': Extern('os.path.realpath', lambda c, p: fs.realpath(p)),
+                'os.makedirs': Extern('os.makedirs', lambda c, p, *a, **k: fs.make(c, p, exist_ok=bool(k.get('exist_ok')))),
+                'shutil.copytree': Extern('shutil.copytree', lambda c, src, dst, *a, **k: fs.make(c, dst)),
+                'os.symlink': Extern('os.symlink', lambda c, src, dst, *a, **k: fs.make(c, dst, link_to=src)),
+                'shutil.copyfile': Extern('shutil.copyfile', lambda c, src, dst, *a, **k: fs.make(c, dst, exist_ok=True)),
+                'raise_with_traceback': Extern('raise_with_traceback', _reraise),
+                'pprint.pformat': Extern('pformat', lambda c, v: 'x')}
 
     def ensures(self, c, st, out):
-        g = c.ghost
-        hostile = any(not inside('/work/inst', os.path.join('/work/inst', k)) or os.path.isabs(k) for k in st.manifest)
-        cl = [('nothing-is-created-outside-the-instance-directory', all(inside('/work/inst', p) for p in g['created']))]
+        fs = c.ghost['fs']
+        keys = list(st.manifest)
+        lexical = any(not inside('/work/inst', os.path.join('/work/inst', k)) or os.path.isabs(k) for k in keys)
+        # an entry nested under a LINK entry that the same manifest creates before it is written where the link points
+        through_link = False
+        for i, k in enumerate(keys):
+            for j in range(i):
+                kj = os.path.normpath(keys[j])
+                if st.manifest[keys[j]].endswith(':link') and os.path.normpath(k).startswith(kj + os.sep):
+                    through_link = True
+        hostile = lexical or through_link
+        # two entries that name the same place (or a place inside an entry that was COPIED before) collide: an OSError, reported
+        # as a packaging error, is the documented outcome
+        norm = [os.path.normpath(k) for k in keys]
+        collide = any(a == b or b.startswith(a + os.sep) or a.startswith(b + os.sep) for i, a in enumerate(norm) for b in norm[i + 1:]) \
+            or 'conf' in [n_.split(os.sep)[0] for n_ in norm if 'conf' not in st.manifest]
+        cl = [('nothing-is-created-outside-the-instance-directory', all(inside('/work/inst', p) for p in fs.created))]
         if out.kind == 'raise':
             cl.append(('rejected-with-a-packaging-error', out.raised(errors.PackageCreateError)))
-            cl.append(('benign-manifests-are-not-rejected', hostile))
+            cl.append(('benign-manifests-are-not-rejected', hostile or collide))
         else:
             cl.append(('hostile-manifests-are-rejected', not hostile))
         return cl
